@@ -344,3 +344,71 @@ Proof.
   intros p fill s1 s2 Hne Harm H. apply (carrier_invariance p fill); try assumption.
   apply (is_carrier_perm p fill [s1; s2]); [apply perm_swap|exact H].
 Qed.
+
+(* ------------------------------------------------------------------------------------------------ *)
+(* the executable witness check of Spec/CarrierSpec.v decides is_carrier                                *)
+Lemma bytestr_eqb_eq : forall a b, bytestr_eqb a b = true <-> a = b.
+Proof. intros a b. unfold bytestr_eqb. destruct (list_eq_dec Z.eq_dec a b); split; intros; try discriminate; auto. Qed.
+
+Lemma remove_one_perm : forall x l l', remove_one x l = Some l' -> Permutation l (x :: l').
+Proof.
+  intros x l. induction l as [|y r IH]; intros l' H; [discriminate|].
+  cbn [remove_one] in H. destruct (bytestr_eqb x y) eqn:E.
+  - apply bytestr_eqb_eq in E. injection H as <-. subst. apply Permutation_refl.
+  - destruct (remove_one x r) as [r'|]; [|discriminate]. injection H as <-.
+    eapply Permutation_trans; [apply perm_skip, (IH r' eq_refl)|apply perm_swap].
+Qed.
+
+Lemma remove_one_in : forall x l, In x l -> exists l', remove_one x l = Some l'.
+Proof.
+  intros x l. induction l as [|y r IH]; intros H; [contradiction|].
+  cbn [remove_one]. destruct (bytestr_eqb x y) eqn:E; [now eexists|].
+  destruct H as [->|H]; [rewrite (proj2 (bytestr_eqb_eq x x) eq_refl) in E; discriminate|].
+  destruct (IH H) as [r' ->]. now eexists.
+Qed.
+
+Lemma permb_sound : forall l1 l2, permb l1 l2 = true -> Permutation l1 l2.
+Proof.
+  induction l1 as [|x r IH]; intros l2 H; cbn [permb] in H.
+  - destruct l2; [constructor|discriminate].
+  - destruct (remove_one x l2) as [l2'|] eqn:E; [|discriminate].
+    apply Permutation_sym. eapply Permutation_trans; [apply (remove_one_perm _ _ _ E)|].
+    apply perm_skip, Permutation_sym, IH, H.
+Qed.
+
+Lemma permb_complete : forall l1 l2, Permutation l1 l2 -> permb l1 l2 = true.
+Proof.
+  induction l1 as [|x r IH]; intros l2 H; cbn [permb].
+  - apply Permutation_nil in H. now subst.
+  - destruct (remove_one_in x l2 (Permutation_in _ H (or_introl eq_refl))) as [l2' E]. rewrite E.
+    apply IH. apply (Permutation_cons_inv (a := x)).
+    eapply Permutation_trans; [exact H|apply (remove_one_perm _ _ _ E)].
+Qed.
+
+Lemma part_okb_spec : forall co, part_okb co = true <-> part_ok co.
+Proof.
+  intros co. unfold part_okb, part_ok. rewrite !andb_true_iff, negb_true_iff, Nat.eqb_neq, Nat.leb_le.
+  destruct (fst co); cbn [length]; intuition (try congruence; try lia).
+Qed.
+
+Theorem carrier_checkb_sound : forall p fill parts seq ss,
+  carrier_checkb p fill parts seq ss = true -> is_carrier p fill ss.
+Proof.
+  intros p fill parts seq ss H. unfold carrier_checkb in H.
+  rewrite !andb_true_iff, bytestr_eqb_eq, !Nat.leb_le, forallb_forall in H.
+  destruct H as [[[[[[H1 H2] H3] H4] H5] H6] H7].
+  exists parts, seq. repeat split; try assumption.
+  - apply Forall_forall. intros co Hco. apply part_okb_spec. now apply H4.
+  - destruct seq; [now apply Nat.leb_le|now apply Nat.eqb_eq].
+  - now apply permb_sound.
+Qed.
+
+Theorem carrier_checkb_complete : forall p fill ss,
+  is_carrier p fill ss -> exists parts seq, carrier_checkb p fill parts seq ss = true.
+Proof.
+  intros p fill ss [parts [seq [H1 [[H2 H3] [H4 [H5 [H6 H7]]]]]]]. exists parts, seq. unfold carrier_checkb.
+  rewrite !andb_true_iff, bytestr_eqb_eq, !Nat.leb_le, forallb_forall. repeat split; try assumption.
+  - intros co Hco. apply part_okb_spec. rewrite Forall_forall in H4. now apply H4.
+  - destruct seq; [now apply Nat.leb_le|now apply Nat.eqb_eq].
+  - now apply permb_complete.
+Qed.
